@@ -586,6 +586,10 @@ func runTape(chk Check, o *Options, run uint64, vals []uint32, keep bool) (*Viol
 
 // minimise shrinks the tape while the same violation class recurs.
 func minimise(chk Check, o *Options, p Plan, fv FoundViolation) *ReplayFile {
+	if fv.V.Uncontrolled {
+		return &ReplayFile{Property: chk.ID(), Tier: o.Tier, Seed: o.Seed, Run: fv.Run, Tape: fv.Tape, Violation: fv.V,
+			Toolchain: runtime.Version(), OrigTape: len(fv.Tape)}
+	}
 	deadline := time.Now().Add(time.Duration(p.ShrinkSec) * time.Second)
 	best := append([]uint32(nil), fv.Tape...)
 	class := fv.V.Class
@@ -715,6 +719,19 @@ func replayMain(chk Check, o *Options) int {
 	}
 	var v *Violation
 	var c *Ctx
+	if rf.Violation.Uncontrolled {
+		// uncontrolled companion mode: re-run the scenario up to 5 times, reproduce the class
+		for attempt := 0; attempt < 5; attempt++ {
+			v, c = runTape(chk, o, rf.Run, rf.Tape, true)
+			if v != nil && v.Class == rf.Violation.Class {
+				fmt.Printf("replay (uncontrolled mode, attempt %d): reproduced class=%s\n  %s\n", attempt+1, v.Class, v.Detail)
+				fmt.Printf("VIOLATION property=%s replay=%s\n", chk.ID(), o.ReplayPath)
+				return 1
+			}
+		}
+		fmt.Printf("replay (uncontrolled mode): class %s not reproduced in 5 attempts\n", rf.Violation.Class)
+		return 0
+	}
 	if rf.Generate {
 		c = &Ctx{T: tape.New(o.Seed, rf.Run), S: NewStats(), Log: &EvLog{}, Tier: o.Tier, Seed: o.Seed, Run: rf.Run, Replay: true}
 		c.Log.Keep(true)
